@@ -17,6 +17,7 @@ structure Obs where
   ff : Option Bool          -- its `failfast` attribute (none: it has none)
   leafStop : List Bool      -- `shouldStop` of every leaf
   leafFF : List Bool        -- `failfast` of every leaf
+  cb : List Nat := []       -- calls of the callback of every `StreamFailFast` that is a stream target, so far
 deriving Repr, DecidableEq
 
 structure Trace where
@@ -46,9 +47,26 @@ def LeafSt.textOut : LeafSt → Option (List Out)
 def readFF (s : Shape) (st : St s) : Option Bool :=
   if (caps s).failfast then some (failfastOf s st) else none
 
+mutual
+/-- how often each `StreamFailFast` used as stream target called its callback (pre-order) -/
+def cbsOf : (s : Shape) → St s → List Nat
+  | .sff, (_, n) => [n]
+  | .sink _, _ | .fsink _ _ _, _ | .tt _, _ | .text _, _ | .tbt, _ => []
+  | .etod c, (_, inner) => cbsOf c inner
+  | .deco c, st => cbsOf c st
+  | .tagger _ _ c, st => cbsOf c st
+  | .tfr c, (_, inner) => cbsOf c inner
+  | .e2s c, (_, inner) => cbsOf c inner
+  | .multi cs, (_, inner) => cbsOfL cs inner
+def cbsOfL : (cs : List Shape) → StL cs → List Nat
+  | [], _ => []
+  | c :: cs, (x, xs) => cbsOf c x ++ cbsOfL cs xs
+end
+
 def observe (s : Shape) (st : St s) : Obs :=
   { ws := wasSuccessfulOf s st, ss := shouldStopOf s st, ff := readFF s st,
-    leafStop := (leaves s st).map LeafSt.shouldStop, leafFF := (leaves s st).map LeafSt.failfast }
+    leafStop := (leaves s st).map LeafSt.shouldStop, leafFF := (leaves s st).map LeafSt.failfast,
+    cb := cbsOf s st }
 
 def states (s : Shape) : St s → List Call → List (St s)
   | _, [] => []
